@@ -198,12 +198,25 @@ def keptOk (ca : List String) (before after : Store) : Bool :=
       | some a => a.crt == b.crt && a.key == b.key && a.ca == b.ca
       | none => false)
 
-def caNames (steps : List Step) : List String :=
+/-- `NoSecond before after` as a Boolean -/
+def noSecondOk (before after : Store) : Bool :=
+  after.pkgs.all fun q =>
+    match q.ref with
+    | none => true
+    | some r =>
+      let installed := before.pkgs.any fun q' => q'.kind = q.kind && (match q'.ref with | some r' => r'.src == r.src | none => false)
+      !installed || before.pkgs.any fun q0 => q0.kind = q.kind && q0.name == q.name
+
+def installCount (steps : List Step) : Nat :=
+  (steps.filter fun s => match s with | .install _ _ _ => true | _ => false).length
+
+def drvCaNames (steps : List Step) : List String :=
   steps.filterMap fun s => match s with
     | .tls ca sv cl => if sv.isSome || cl.isSome then some ca else none
     | _ => none
 
 def handler : Handler := fun scn =>
+  if str scn "kind" == "realdirs" then .error "supporting run over the real directories: no model counterpart" else
   let steps : List Step :=
     if str scn "kind" == "init" && has scn "cfg" then initSteps (cfgOf (obj scn "cfg")) else (arr scn "steps").map stepOf
   let s0 := storeOf (obj scn "store")
@@ -221,8 +234,8 @@ def handler : Handler := fun scn =>
       | some (.err _, _, d) => ("err", d)
     let out := Json.mkObj [("res", .str res), ("done", .num (Lean.JsonNumber.fromNat done)), ("writes", .num (Lean.JsonNumber.fromNat (changed plan 0 prog s))),
       ("log", .arr (log.map Json.str).toArray), ("store", storeJson s')]
-    let kept := keptOk (caNames steps) s s'
-    (outs ++ [out], s', okSoFar && kept, if kept then why else "C20:material-rewritten")) ([], s0, true, "")
+    let kept := keptOk (drvCaNames steps) s s' && (installCount steps != 1 || noSecondOk s s')
+    (outs ++ [out], s', okSoFar && kept, if kept then why else "C20:model-property-false (kept material or no-second-package)")) ([], s0, true, "")
   let out := Json.mkObj [("imgs", .arr (imgs.map imgObs).toArray), ("runs", .arr outs.toArray)]
   .ok (out, propOk, why)
 
